@@ -129,17 +129,6 @@ reachable from an initial state with ANY number of connections, waiters and SetM
 enabled actions (all interleavings). -/
 open Tongo.PoolSM
 
-theorem reachable_of_runTrace {v : Variant} (as : List Action) : ∀ {s0 s : State}, Reachable v s0 →
-    runTrace v s0 as = some s → Reachable v s := by
-  induction as with
-  | nil => intro s0 s hr h; simp only [runTrace, Option.some.injEq] at h; subst h; exact hr
-  | cons a as ih =>
-    intro s0 s hr h
-    simp only [runTrace] at h
-    cases hs : PoolSM.step v s0 a with
-    | none => rw [hs] at h; cases h
-    | some s1 => rw [hs] at h; exact ih (Reachable.step hr hs) h
-
 /-- deadlock freedom: in every reachable state some thread can take a step of its own, or every thread is finished or
 parked in its select on an empty channel (then only a tick, a timer, a cancellation or a new head can happen) -/
 def NoDeadlock (v : Variant) : Prop := ∀ s, Reachable v s → quiescent s = true ∨ CanStep v s
